@@ -212,6 +212,6 @@ theorem C03_failed_message_is_generated (o : Ora) (i : Callback.In) (reqID acs s
   exact ⟨r, hr, by rw [hm, Callback.failedMsg, hid0, hii, hacs, hreq, hiss]⟩
 
 theorem C03_source_current : Consts.current = true ∧
-    FactsUtil.sameHashes ["provider.NewID", "provider.Response.sendBackResponse"] = true := ⟨by decide, by decide⟩
+    FactsUtil.sameHashes ["provider.NewID"] = true := ⟨by decide, by decide⟩
 
 end C03
